@@ -197,6 +197,26 @@ func entrySample17(e *api.MdnsEntry) any {
 // c08: the same histories for C08's mDNS stream - a panic or a hang of the resolver callback is
 // recorded as a case of its own (MCrash) instead of ending the driver, the histories are wrapped in MHist
 func runC17(r *vh.Rng, n int, w *vh.Writer, c08 bool) int {
+	if c08 {
+		// raw TXT slices as a provider hands them over, through the real parseTxt and the callback
+		own := "ffffffffffffffffffffffffffffffffffffff01"
+		for i := 0; i < n/2; i++ {
+			txt, _ := randTxt(r, own)
+			if i%7 == 0 {
+				txt = append(txt, "")
+			}
+			if i%11 == 0 {
+				txt = []string{""}
+			}
+			_, err := readTxt(own, txt)
+			term, kind := "MTxtOk", "txt_slice"
+			if err != nil {
+				term, kind = fmt.Sprintf("MCrash %s", vh.B(strings.Contains(err.Error(), "no return"))), "txt_slice_crash"
+			}
+			w.Put(vh.Case{Coq: term, Nontrivial: true, Key: fmt.Sprintf("txt|%q", txt), Kind: kind,
+				Sample: map[string]any{"txt": fmt.Sprintf("%+q", txt), "error": fmt.Sprint(err)}})
+		}
+	}
 histories:
 	for c := 0; c < n; c++ {
 		recs := recTable()
